@@ -14,9 +14,11 @@ CONSTANTS
   WithFail = FALSE
   WithInflight = FALSE
   WithSwap = FALSE
+  WithOvertake = FALSE
   WithRestart = FALSE
   AlterDbChecked = TRUE
   AlterIdxRecheck = TRUE
   DropGuarded = TRUE
   CreateFromDrop = TRUE
+  ProbeAfterDrop = TRUE
   TabT = {0, 1, 2, 3}
